@@ -763,7 +763,9 @@ fn run_zone(spec: &ZoneSpec, qnames: &[String], sigs: &[Signing], rt: &tokio::ru
             if *signing == Signing::Unsigned {
                 l.outcome(&format!("ref:{class}"));
                 if class != "DATA" && class != "OUTOFZONE" {
-                    l.nontrivial(fnv_str(&format!("{zone_text}|{qn}|{t}")));
+                    // per (zone, qname, outcome class): stays far below vcore's 40 M cap in the thorough tier
+                    l.nontrivial(fnv_str(&format!("{zone_text}|{qn}|{class}")));
+                    let _ = t;
                 }
             }
             if let Some((vd, resp)) = run_query(&built, &zone, &facts, res, qn, *t, rt, l) {
@@ -857,7 +859,7 @@ fn main() {
          (quick d=2,K<=2; thorough adds d=2,K=3 over 8 kinds [unsigned+NSEC] and d=3,K<=2 [unsigned+NSEC+NSEC3]) plus CNAME chains 1..9 / loops 1..3, x every query name of {apex, U(3), x.o., names below cuts} \
          x qtypes {A,AAAA,MX,NS,CNAME,SOA,DS,TXT,ANY}, each as a wire query through the real Catalog against the unsigned (DO=0), NSEC-signed and \
          NSEC3-signed (DO=1) zone; oracle = vref::zone (RFC 1034 4.3.2 + RFC 4592) on rcode, answer RR set, referral cut, SOA in negative answers, \
-         RRSIG/denial presence. Non-trivial = distinct (zone, qname, qtype) whose reference outcome is not a plain exact match (CNAME, cut, wildcard, ENT, NODATA, NXDOMAIN).",
+         RRSIG/denial presence. Non-trivial = distinct (zone, qname, reference outcome class) whose class is not a plain exact match (CNAME chain, cut, wildcard, ENT, NODATA, NXDOMAIN).",
     );
     ctx.assume("vref::zone (RFC 1034 4.3.2 / RFC 4592 reference lookup; self-tested against RFC 4592 2.2.1/3.3.1 and RFC 4034 6.1 on every run)");
     ctx.assume("zone contents reach the server through InMemoryZoneHandler::upsert_mut and the real secure_zone_mut; Ed25519 (ring) signs deterministically");
